@@ -115,7 +115,7 @@ class Ablate(_WrapBase):
 
     def shuffled(self, a):
         from vf.world import shuffle_fn_result
-        return shuffle_fn_result(a.shuffle_fn, a.X, a.n)
+        return shuffle_fn_result(a.shuffle_fn, a.X, a.n, a.start, a.end, a.random_state)
 
     def rejects(self, a, cfg):
         return args_mismatch(a.X, a.args)
@@ -145,6 +145,286 @@ class Ablate(_WrapBase):
         return (before, after)
 
 
+def rep_rows(t, R):
+    """tensor t of shape (N, ...) repeated along a new leading annotation axis of size R"""
+    return spec_tensor([R] + list(t.shape), lambda a_, *i: t.elem(*i), t.kind)
+
+
+class MarginalizeAnnotations(_WrapBase):
+    """C08: entry [a, i] of output o of 'after' = func on background example i with annotation a's
+    span of X transplanted into the centre; 'before' = func on the unmodified background; the number
+    of returned outputs is the number of model outputs, whatever the number of annotations."""
+    qualname = 'tangermeme.marginalize.marginalize_annotations'
+
+    def configs(self):
+        return [dict(func=f, out=o, n_args=n) for f in ('opaque', 'predict') for o in ('tensor', 'tuple2') for n in ('none', 1)]
+
+    def make_args(self, cfg, A):
+        X = A.onehot('X', 3)
+        X0 = A.onehot('X0', 3)
+        A.assume(X.shape[1] >= 2, O.eq(X0.shape[1], X.shape[1]))
+        func, model = self.func_and_model(cfg, A)
+        args = self.extra_args(cfg, A)
+        ann = A.tensor('annotations', 2, 'int', shape=[A.dim('annotations.d0', 1), 3])
+        A.assume(ann.shape[0] >= 1)
+        kwargs = {}
+        if func is not None:
+            kwargs['func'] = func
+        else:
+            kwargs['device'] = 'cpu'
+            kwargs['batch_size'] = A.int('batch_size', lo=1)
+        if args is not None:
+            kwargs['args'] = args
+        return [model, X, X0, ann], kwargs
+
+    def pre(self, a, cfg):
+        X, X0, ann = a.X, a.X0, a.annotations
+        return [O.forall_hyp([ann.shape[0]], lambda r: And(0 <= ann[r, 0], ann[r, 0] < X.shape[0], 0 <= ann[r, 1], ann[r, 1] < ann[r, 2],
+                                                             ann[r, 2] <= X.shape[2], ann[r, 2] - ann[r, 1] <= X0.shape[2]))]
+
+    def rejects(self, a, cfg):
+        return args_mismatch(a.X0, a.kwargs.get('args'))
+
+    def result(self, a, cfg):
+        X, X0, ann = a.X, a.X0, a.annotations
+        R = ann.shape[0]
+        args = a.kwargs.get('args')
+        func = a.kwargs.get('func')
+        rw = (func if isinstance(func, Opaque) else a.model).attrs['rowwise']
+        nout = 1 if rw.k is None else rw.k
+        L0 = X0.shape[2]
+        befores, afters = [], []
+        for o in range(nout):
+            def mk_before(o=o):
+                def content(r, i, *t):
+                    return rw.at(o, [row(X0, i)] + [row(g, i) for g in (args or ())], t)
+                return spec_tensor([R, X0.shape[0]] + list(rw.trailing[o]), content, 'real')
+
+            def mk_after(o=o):
+                def content(r, i, *t):
+                    idx, s, e = ann[r, 0], ann[r, 1], ann[r, 2]
+                    n = e - s
+                    st = O.floordiv(L0, 2) - O.floordiv(n, 2)
+                    xi = spec_tensor([X0.shape[1], L0], lambda c, p: ite(And(st <= p, p < st + n), X[idx, c, s + (p - st)], X0[i, c, p]))
+                    return rw.at(o, [xi] + [row(g, i) for g in (args or ())], t)
+                return spec_tensor([R, X0.shape[0]] + list(rw.trailing[o]), content, 'real')
+            befores.append(mk_before())
+            afters.append(mk_after())
+        if rw.k is None:
+            return (befores[0], afters[0])
+        return (list(befores), list(afters))
+
+    def loops(self):
+        from vf.world import defined_loop
+        from vf.contract import NS
+
+        def lists(fr, it):
+            env = fr.env
+            kw = env['kwargs']
+            a = NS(X=env['X'], X0=env['X0'], annotations=env['annotations'], model=env['model'], kwargs=kw)
+            b, af = self.result(a, {})
+            func = kw.get('func')
+            rw = (func if isinstance(func, Opaque) else env['model']).attrs['rowwise']
+            tk = None if rw.k is None else ('tuple' if isinstance(func, Opaque) and rw.tuple_kind == 'tuple' else 'list')
+            pre = lambda t: spec_tensor([it] + list(t.shape[1:]), lambda *i: t.elem(*i), t.kind)
+            bs = [pre(t) for t in ([b] if rw.k is None else b)]
+            as_ = [pre(t) for t in ([af] if rw.k is None else af)]
+            return StackList(it, bs, tk), StackList(it, as_, tk)
+        def extra(E, fr):
+            # a completed iteration means func accepted the extra arguments
+            return [('iterations-passed-validation', Implies(E.it >= 1, Not(args_mismatch(E.X0, E.kwargs.get('args')))))]
+        return {1: defined_loop({'y_befores': lambda fr, it: lists(fr, it)[0], 'y_afters': lambda fr, it: lists(fr, it)[1]},
+                                extra=extra)}
+
+
+class AblateAnnotations(_WrapBase):
+    """C08: after[a, 0, j] of output o = func on the annotated example with annotation a's span shuffled
+    by shuffle j, extra arguments taken from that same example; before[a, 0] = func on that example."""
+    qualname = 'tangermeme.ablate.ablate_annotations'
+
+    def configs(self):
+        return [dict(func='opaque', out=o, n_args=n) for o in ('tensor', 'tuple2') for n in ('none', 1)]
+
+    def make_args(self, cfg, A):
+        X = A.onehot('X', 3)
+        A.assume(X.shape[1] >= 2)
+        func, model = self.func_and_model(cfg, A)
+        args = self.extra_args(cfg, A)
+        ann = A.tensor('annotations', 2, 'int', shape=[A.dim('annotations.d0', 1), 3])
+        A.assume(ann.shape[0] >= 1)
+        kwargs = dict(n=A.int('n', lo=1), func=func, random_state=A.int('seed'),
+                      shuffle_fn=Opaque('SHUF', 'shuffle_fn', {'types': ['function'], 'recording': A.scope is not None}))
+        if args is not None:
+            kwargs['args'] = args
+        return [model, X, ann], kwargs
+
+    def pre(self, a, cfg):
+        X, ann = a.X, a.annotations
+        return [O.forall_hyp([ann.shape[0]], lambda r: And(0 <= ann[r, 0], ann[r, 0] < X.shape[0]))]
+
+    def rejects(self, a, cfg):
+        return False
+
+    def accepts(self, a, cfg):
+        # extra arguments are sliced per annotated example: a request whose arguments match X must succeed
+        return Not(args_mismatch(a.X, a.kwargs.get('args')))
+
+    def result(self, a, cfg):
+        from vf.world import shuffle_fn_result
+        X, ann, kw = a.X, a.annotations, a.kwargs
+        R, n = ann.shape[0], kw['n']
+        args, func = kw.get('args'), kw['func']
+        rw = func.attrs['rowwise']
+        nout = 1 if rw.k is None else rw.k
+        befores, afters = [], []
+        for o in range(nout):
+            def mk_before(o=o):
+                return spec_tensor([R, 1] + list(rw.trailing[o]),
+                                   lambda r, z, *t: rw.at(o, [row(X, ann[r, 0])] + [row(g, ann[r, 0]) for g in (args or ())], t), 'real')
+
+            def mk_after(o=o):
+                def content(r, z, j, *t):
+                    idx, s, e = ann[r, 0], ann[r, 1], ann[r, 2]
+                    Xs = spec_tensor([1, X.shape[1], X.shape[2]], lambda b, c, p: X[idx, c, p])
+                    sh = shuffle_fn_result(kw['shuffle_fn'], Xs, n, s, e, kw['random_state'])
+                    xi = spec_tensor([X.shape[1], X.shape[2]], lambda c, p: sh[0, j, c, p])
+                    return rw.at(o, [xi] + [row(g, idx) for g in (args or ())], t)
+                return spec_tensor([R, 1, n] + list(rw.trailing[o]), content, 'real')
+            befores.append(mk_before())
+            afters.append(mk_after())
+        if rw.k is None:
+            return (befores[0], afters[0])
+        return (list(befores), list(afters))
+
+    def loops(self):
+        from vf.world import defined_loop
+        from vf.contract import NS
+
+        def lists(fr, it):
+            env = fr.env
+            kw = dict(env['kwargs'])
+            if 'args' in env and env['args'] is not None:
+                kw['args'] = env['args']
+            a = NS(X=env['X'], annotations=env['annotations'], model=env['model'], kwargs=kw)
+            b, af = self.result(a, {})
+            rw = kw['func'].attrs['rowwise']
+            tk = None if rw.k is None else rw.tuple_kind
+            if tk == 'tuple':
+                tk_after = 'list'      # ablate re-packs multi-output 'after' as a list
+            else:
+                tk_after = tk
+            pre = lambda t: spec_tensor([it] + list(t.shape[1:]), lambda *i: t.elem(*i), t.kind)
+            bs = [pre(t) for t in ([b] if rw.k is None else b)]
+            as_ = [pre(t) for t in ([af] if rw.k is None else af)]
+            return StackList(it, bs, tk), StackList(it, as_, tk_after)
+
+        return {1: defined_loop({'y_befores': lambda fr, it: lists(fr, it)[0], 'y_afters': lambda fr, it: lists(fr, it)[1]})}
+
+
+class Space(_WrapBase):
+    """C08: after[i, s] = func on example i with the motifs substituted at spacing row s;
+    before[i, s] = func on the unmodified example i."""
+    qualname = 'tangermeme.space.space'
+
+    def configs(self):
+        return [dict(func='opaque', out=o, k=k, motif=m, n_args=n) for o in ('tensor', 'tuple2') for k in (2, 3)
+                for m in ('tensor', 'str') for n in ('none', 1)]
+
+    ms = None
+
+    def make_args(self, cfg, A):
+        from contracts.ersatz_c import MultiSubstitute
+        X = A.onehot('X', 3)
+        A.assume(X.shape[1] >= 2)
+        k = cfg['k']
+        kw = {}
+        motifs = []
+        if cfg['motif'] == 'str':
+            n = z3.Int('alphabet.n')
+            A.assume(n >= 1)
+            kw['alphabet'] = Opaque('alphabet', 'alphabet', {'n': n})
+        for i in range(k):
+            if cfg['motif'] == 'tensor':
+                motifs.append(A.onehot('motif%d' % i, 3))
+            else:
+                m = SStr('motif%d' % i)
+                A.assume(m.length >= 0)
+                q = z3.Int('cq')
+                A.assume(z3.ForAll([q], And(m.code(q) >= -2, m.code(q) < n), patterns=[m.code(q)]))
+                motifs.append(m)
+        func, model = self.func_and_model(cfg, A)
+        args = self.extra_args(cfg, A)
+        spacing = A.tensor('spacing', 2, 'int', shape=[A.dim('spacing.d0', 1), k - 1])
+        A.assume(spacing.shape[0] >= 1)
+        kwargs = dict(start=A.int('start'), func=func, **kw)
+        if args is not None:
+            kwargs['args'] = args
+        return [model, X, motifs, spacing], kwargs
+
+    def ms_ns(self, a, srow):
+        from vf.contract import NS
+        sp = a.spacing
+        return NS(X=a.X, motifs=a.motifs, spacing=[sp[srow, j] for j in range(len(a.motifs) - 1)], start=a.start, alphabet=a.alphabet)
+
+    def rejects(self, a, cfg):
+        from contracts.ersatz_c import MultiSubstitute
+        ms = MultiSubstitute()
+        return Or(O.exists_box([a.spacing.shape[0]], lambda s_: ms.rejects(self.ms_ns(a, s_), {})), args_mismatch(a.X, a.kwargs.get('args')))
+
+    def accepts(self, a, cfg):
+        from contracts.ersatz_c import MultiSubstitute
+        ms = MultiSubstitute()
+        return And(Not(O.exists_box([a.spacing.shape[0]], lambda s_: Not(ms.accepts(self.ms_ns(a, s_), {})))), Not(args_mismatch(a.X, a.kwargs.get('args'))))
+
+    def result(self, a, cfg):
+        from contracts.ersatz_c import MultiSubstitute
+        ms = MultiSubstitute()
+        X, S = a.X, a.spacing.shape[0]
+        args, func = a.kwargs.get('args'), a.func
+        rw = func.attrs['rowwise']
+        nout = 1 if rw.k is None else rw.k
+        befores, afters = [], []
+        for o in range(nout):
+            befores.append(spec_tensor([X.shape[0], S] + list(rw.trailing[o]),
+                                       lambda i, s_, *t, o=o: rw.at(o, [row(X, i)] + [row(g, i) for g in (args or ())], t), 'real'))
+            afters.append(spec_tensor([X.shape[0], S] + list(rw.trailing[o]),
+                                      lambda i, s_, *t, o=o: rw.at(o, [row(ms.result(self.ms_ns(a, s_), {}), i)] + [row(g, i) for g in (args or ())], t), 'real'))
+        if rw.k is None:
+            return (befores[0], afters[0])
+        return (list(befores), list(afters))
+
+    def loops(self):
+        from vf.world import defined_loop
+        from vf.contract import NS
+
+        def lists(fr, it):
+            env = fr.env
+            a = NS(X=env['X'], motifs=env['motifs'], spacing=env['spacing'], start=env['start'], alphabet=env['alphabet'],
+                   func=env['func'], model=env['model'], kwargs=env['kwargs'])
+            b, af = self.result(a, {})
+            rw = env['func'].attrs['rowwise']
+            tk = None if rw.k is None else rw.tuple_kind
+            tr = lambda t: spec_tensor([it, t.shape[0]] + list(t.shape[2:]), lambda s_, i, *q: t.elem(i, s_, *q), t.kind)
+            bs = [tr(t) for t in ([b] if rw.k is None else b)]
+            as_ = [tr(t) for t in ([af] if rw.k is None else af)]
+            return StackList(it, bs, tk), StackList(it, as_, tk)
+
+        def extra(E, fr):
+            from contracts.ersatz_c import MultiSubstitute
+            ms = MultiSubstitute()
+            a = NS(X=E.X, motifs=E.motifs, spacing=E.spacing, start=E.start, alphabet=E.alphabet)
+            return [('iterations-passed-validation', Implies(E.it >= 1, Not(args_mismatch(E.X, E.kwargs.get('args'))))),
+                    ('rows-passed-validation', E.forall([E.it], lambda s_: Not(ms.rejects(self.ms_ns(a, s_), {}))))]
+        return {1: defined_loop({'y_befores': lambda fr, it: lists(fr, it)[0], 'y_afters': lambda fr, it: lists(fr, it)[1]}, extra=extra)}
+
+
+def row(t, i):
+    return spec_tensor(list(t.shape[1:]), lambda *q: t.elem(i, *q), t.kind)
+
+
 def register(world):
     world.register(Marginalize())
     world.register(Ablate())
+    world.register(MarginalizeAnnotations())
+    world.register(AblateAnnotations())
+    world.register(Space())
